@@ -138,14 +138,19 @@ Definition run_act (now : Z) (s : state) (a : act) : state :=
 Definition run_acts (now : Z) (s : state) (l : list act) : state := fold_left (run_act now) l s.
 
 (* ---- _call_handlers ------------------------------------------------------------------------------ *)
-Definition live (s : state) (v : bool) (uid : Z) : bool :=
-  existsb (fun e => fst (fst e) =? uid) (reg_of (rg s) v).
+Definition ent_eqb (a b : entry) : bool :=
+  (fst (fst a) =? fst (fst b)) && (snd (fst a) =? snd (fst b)) && (snd a =? snd b).
+
+(* "not entry.cancelled": the RegisteredSwitch object is still in the live list (objects are compared with all
+   their fields; identities are fresh numbers, so this is object identity) *)
+Definition live (s : state) (v : bool) (e : entry) : bool := existsb (ent_eqb e) (reg_of (rg s) v).
 
 Definition call_one (A : Z -> list act) (now : Z) (v : bool) (acc : state * list obs) (e : entry)
   : state * list obs :=
   let '(s, lg) := acc in
-  let '(uid, cb, ms) := e in
-  if negb (live s v uid) then (s, lg)                                   (* entry.cancelled *)
+  let cb := snd (fst e) in
+  let ms := snd e in
+  if negb (live s v e) then (s, lg)                                     (* entry.cancelled *)
   else if ms =? 0 then (run_acts now s (A cb), lg ++ [Fire now cb v 0])
   else (set_tm s (add_timed (tm s) (lc s + us ms) (cb, v, ms)), lg).
 
